@@ -303,6 +303,10 @@ impl Mt4 {
 
     pub fn look_at_matrix_lh(eye: Pt3, center: Pt3, up: Pt3) -> Self {
         let mut f = center - eye;
+        // no direction to look in: a zero vector cannot be normalized
+        if f == Pt3::new(0.0, 0.0, 0.0) {
+            return Mt4::identity();
+        }
         f = f.normalized();
         let mut s = up.cross(f);
         // parallel check
